@@ -241,6 +241,11 @@ def gen_cases(rng, tier):
                 e = expected(mm)
                 mm["negmax"] = bool(e is not None and np.any(e < 0))
             cases.append(mm)
+            # the same geometry with ceil_mode as a compile-time constant (a third of the cases; every case whose last ceil-mode window
+            # would start outside the input)
+            if mm["dtype"] in ("f", "i", "d") and (rng.random() < 0.33 or argclass(mm) == "ceil:last_window_outside"):
+                m2 = dict(mm, op=op + "_ct", dtype="f", args="f %s %d %d %d %d %d" % (fmt_operand(xs, x), kk[0], kk[1], ss[0], ss[1], c))
+                cases.append(m2)
 
     # ---------------- softmax / softmin
     shapes = [[n] for n in range(1, 6)] + [list(s) for s in itertools.product(range(1, 5), repeat=2)] + \
@@ -376,7 +381,7 @@ def gen_cases(rng, tier):
 
 
 # ---------------------------------------------------------------- reference
-EXACT_OPS = ("nn_conv1d", "nn_conv1d_form", "nn_conv2d", "nn_conv2d_list", "nn_conv2d_ct", "nn_conv2d_form", "nn_max_pool2d", "nn_linear", "nn_bilinear")
+EXACT_OPS = ("nn_conv1d", "nn_conv1d_form", "nn_conv2d", "nn_conv2d_list", "nn_conv2d_ct", "nn_conv2d_form", "nn_max_pool2d", "nn_max_pool2d_ct", "nn_linear", "nn_bilinear")
 
 
 def expected(m, fast=True):
@@ -389,8 +394,8 @@ def expected(m, fast=True):
         b = None if m["b"] is None else np.array(m["b"], dtype=np.int64)
         f = M.conv_fast if fast else M.conv_loops
         return f(x, w, b, m["stride"], m["padding"], m["dilation"], m["groups"])
-    if op in ("nn_max_pool2d", "nn_avg_pool2d"):
-        return M.pool2d_loops(arr(m["xs"], m["x"], "i"), m["kernel"], m["stride"], bool(m["ceil"]), "max" if op == "nn_max_pool2d" else "avg")
+    if op in ("nn_max_pool2d", "nn_avg_pool2d", "nn_max_pool2d_ct", "nn_avg_pool2d_ct"):
+        return M.pool2d_loops(arr(m["xs"], m["x"], "i"), m["kernel"], m["stride"], bool(m["ceil"]), "max" if op.startswith("nn_max_pool2d") else "avg")
     if op == "nn_softmax":
         return M.softmax_loops(arr(m["xs"], m["x"]), m["axis"])
     if op == "nn_softmin":
@@ -432,7 +437,7 @@ def argclass(m):
         feats = "".join(c for c, on in (("b", m["b"] is not None), ("d", any(t != 1 for t in lst(m["dilation"]))), ("g", m["groups"] > 1),
                                         ("p", any(t != 0 for t in lst(m["padding"]))), ("s", any(t != 1 for t in lst(m["stride"])))) if on)
         return "%s:%s" % (m["form"], feats or "plain")
-    if op in ("nn_max_pool2d", "nn_avg_pool2d"):
+    if op in ("nn_max_pool2d", "nn_avg_pool2d", "nn_max_pool2d_ct", "nn_avg_pool2d_ct"):
         k, s = m["kernel"], m["stride"]
         H, W = m["xs"][-2:]
 
@@ -441,7 +446,7 @@ def argclass(m):
             return bool(m["ceil"]) and (-((L - kk) // -ss)) * ss >= L
         if outside(H, k[0], s[0]) or outside(W, k[1], s[1]):
             return "ceil:last_window_outside"
-        if op == "nn_max_pool2d" and m.get("negmax"):
+        if op.startswith("nn_max_pool2d") and m.get("negmax"):
             return "negative_window_max"
         over = bool(m["ceil"]) and ((H - k[0]) % s[0] != 0 or (W - k[1]) % s[1] != 0)
         return "%s:%s" % ("ceil" if m["ceil"] else "floor", "overhang" if over else "fit")
